@@ -165,12 +165,10 @@ theorem acct_step_seqRound (gas : Nat) (ih : Acct gas) :
       · split at h
         · cases h
         · split at h
-          · cases h
-          · split at h
-            · simp only [pure_eq_ok] at h; subst h; exact Taken.refl ..
-            · obtain ⟨r', hr', h⟩ := bind_ok _ _ _ h
-              simp only [pure_eq_ok] at h; subst h
-              exact ((ih.seqRound _ _ _ _ _ r' hreg.2 hr').lift (Nat.le_succ gas)).mono mem_right
+          · simp only [pure_eq_ok] at h; subst h; exact Taken.refl ..
+          · obtain ⟨r', hr', h⟩ := bind_ok _ _ _ h
+            simp only [pure_eq_ok] at h; subst h
+            exact ((ih.seqRound _ _ _ _ _ r' hreg.2 hr').lift (Nat.le_succ gas)).mono mem_right
     · cases h
     · rename_i r0 hr0
       have h0 := ((ih.parseP _ _ _ _ hreg.1 hr0).lift (Nat.le_succ gas)).mono (es' := levelElemsL (p :: ps)) mem_left
